@@ -8,7 +8,7 @@ from ..core import Sub, build_machine, run_history
 PROP = {
     "id": "C15",
     "level": "exploration",
-    "technique": "Hypothesis RuleBasedStateMachine per channel-mapped block type (EMG, platform calibration, platform data): add (automatic / explicit free / explicit taken channel), remove (label / index / item), bulk add / remove / assignment, adds refused for other reasons than the channel, negative indexes, starting from an empty, constructor-filled or decoded block; model = list of (channel, item); the encoded bytes are decoded by the reference codec after every step",
+    "technique": "Hypothesis RuleBasedStateMachine per channel-mapped block type (EMG, platform calibration, platform data): add (automatic / explicit free / explicit taken channel), remove (label / index / item), bulk add / remove / assignment, adds refused for other reasons than the channel, negative indexes, starting from an empty, constructor-filled or decoded block; model = list of (channel, item); the encoded bytes are decoded by the reference codec after every step; steps may go unobserved (no read of the block after them) and items may also be members of another block; enumerated runs of unobserved edits",
     "level_text": ("Exploration of edit histories against a pair model: after every operation the (channel, item) pairs exposed by the "
                    "block and the pairs found in its encoding (decoded by the independent reference codec) are compared with the "
                    "model - equal lengths, unique channels, surviving items keep the channel they were given, refused operations "
